@@ -2109,8 +2109,14 @@ def remove_dead_ifs(source: str) -> str:
                 # some similar construct, I think that will just confuse people, so we replace
                 # it with a tuple instead, which is semantically equivalent and more readable.
                 # The parentheses around a generator expression belong to it, also when they
-                # are those of a call that it is the only argument of, as in sum(x for x in y).
-                yield (node, "(())")
+                # are those of a call that it is the only argument of, as in sum(x for x in y):
+                # only then a second pair is needed.
+                node_end = core.get_charnos(node, source).end
+                shares_call_parentheses = any(
+                    call.args[0] is node and core.get_charnos(call, source).end == node_end
+                    for call in core.walk(root, ast.Call(args=[ast.GeneratorExp], keywords=[]))
+                )
+                yield (node, "(())" if shares_call_parentheses else "()")
 
             continue
 
